@@ -1,6 +1,8 @@
 import BobModel.Proofs.C07Cook
 import BobModel.Proofs.C07Log
 import BobModel.Proofs.C07Bid
+import BobModel.Proofs.C07NoBuild
+import BobModel.Proofs.C07Fuel
 import BobModel.Generated.ConstsC07
 /-
 C07 — Binary artifacts are reused exactly when they are the right ones.
@@ -389,132 +391,160 @@ theorem misprediction_restart (E : Env) (ρ : Vid → RSig) (hB : BidSound E) (h
     rw [eff_id _ t hp] at this
     exact this
 
+/-- **the restart loop terminates**: every restart makes the real source id of one more package known, so an
+invocation ends after at most (number of packages + 1) rounds in success or in a `BuildError`, never in a restart -/
+theorem restart_terminates (E : Env) (cfg : Cfg) (t : Pkg) (s : St) (a : Archive) :
+    (∃ r, cook E cfg t s a = .ok r) ∨ (∃ r, cook E cfg t s a = .abort r) := by
+  cases h : cook E cfg t s a with
+  | ok r => exact Or.inl ⟨r, rfl⟩
+  | abort r => exact Or.inr ⟨r, rfl⟩
+  | restart r => exact absurd h (cook_no_restart E cfg t s a r)
+
 /-! ## 5. what was uploaded is downloaded without building -/
 
-/-- the workspace was never used or only for downloads -/
-def DLOnly (l : Loc) : Prop := (l.inp = none ∧ l.res = none) ∨ ∃ b, l.inp = some (.downloaded b)
+/-- what the upload of a freshly built package leaves in the archive under its Build-Id: an extractable artifact
+whose audit trail records the hash of its content (an artifact that is already there is never overwritten) -/
+theorem uploaded_artifact_consistent (E : Env) (s : St) (a : Archive) (p : Path) (b : BuildId) (c : Content)
+    (haud : s.audit p = some (E.H c)) (hd : s.disk p = some c)
+    (hcons : ∀ x, a b = some x → ∃ c', x = .good c' (some (E.H c'))) :
+    ∃ c', (applyOp E (s, a) (.upload p b)).2 b = some (.good c' (some (E.H c'))) := by
+  simp only [applyOp, haud]
+  cases hb : a b with
+  | none =>
+    refine ⟨c, ?_⟩
+    simp [upd_same, hd]
+  | some x =>
+    obtain ⟨c', hc'⟩ := hcons x hb
+    exact ⟨c', by simp [hb, hc']⟩
 
-/-- **an uploaded artifact is downloaded**: where a download may be tried (`tryDownload`: at or below the download
-depth, or matched by `packages=` / a layer mode), the archive can be read, the workspace is
-fresh or download-only and the archive holds what a local build uploads under the Build-Id, `_downloadPackage`
-reports a download, executes nothing and leaves exactly that content -/
+
+theorem nodes_relocate (f : Path → Path) (t : Pkg) : nodes (relocate f t) = (nodes t).map (relocate f) :=
+  Pkg.rec (motive_1 := fun t => nodes (relocate f t) = (nodes t).map (relocate f))
+    (motive_2 := fun ds => nodesL (relocateL f ds) = (nodesL ds).map (relocate f))
+    (fun i ds ih => by simp only [relocate, nodes, List.map_cons, ih])
+    rfl
+    (fun d ds hd hds => by simp only [relocateL, nodesL, List.map_append, hd, hds])
+    t
+
+/-- **an uploaded artifact is downloaded** (one call of `_downloadPackage`): where a download may be tried
+(`tryDownload`: at or below the download depth, or matched by `packages=` / a layer mode), the archive can be read,
+the workspace is fresh or download-only and the archive holds an extractable artifact with a matching audit trail
+under the Build-Id, the call reports a download and executes nothing -/
 theorem uploaded_is_downloaded (E : Env) (cfg : Cfg) (depth : Nat) (i : PInfo) (b : BuildId) (l : Loc) (c : Content)
     (ht : tryDownload cfg.dl depth i = true) (hc : cfg.canDownload = true) (hl : DLOnly l) :
     (dlOps E cfg depth i b l (some (.good c (some (E.H c))))).2 = .downloaded ∧
     (∀ op ∈ (dlOps E cfg depth i b l (some (.good c (some (E.H c))))).1, ∀ p c', op ≠ .runPackage p c') := by
-  constructor
-  · unfold dlOps
-    simp only [ht, Bool.not_true, Bool.false_eq_true, if_false]
-    split
-    · simp [fetch, hc, dlFetchOps]
-    · rename_i hcond
-      simp only [Bool.or_eq_true, not_or, Bool.not_eq_true, Option.isNone_iff_eq_none] at hcond
-      rcases hl with ⟨_, h2⟩ | ⟨b0, h2⟩
-      · exact absurd h2 hcond.2
-      · simp [h2, dissect]
-  · intro op hop p c' e
-    have := (dlOps_path E cfg depth i b l _ op hop)
-    subst e
-    unfold dlOps at hop
-    simp only [ht, Bool.not_true, Bool.false_eq_true, if_false] at hop
-    split at hop
-    · simp only [List.mem_append] at hop
-      rcases hop with (hop | hop) | hop
-      · split at hop <;> simp at hop
-      · split at hop <;> simp at hop
-      · simp [fetch, hc, dlFetchOps] at hop
-    · split at hop <;>
-      · simp only [List.mem_append] at hop
-        rcases hop with hop | hop
-        · split at hop <;> simp at hop
-        · split at hop <;> simp at hop
+  refine ⟨dl_succeeds E cfg depth i b l c ht hc hl, ?_⟩
+  intro op hop p c' e
+  have := dlOps_norun E cfg depth i b l _ op hop
+  rw [e] at this
+  simp [Op.isRun] at this
 
-/-- full statement (not asserted here): after a cook with upload of the same project state at another location,
-*every* package at or below the download depth is downloaded and no package script at or below it is executed, for
-every download depth.  `upload_then_download_no_build_partial` proves it for the target package, which is all there
-is to do when the download depth is 0 (modes `yes`, `forced`, `forced-fallback`). -/
-def upload_then_download_no_build_goal : Prop :=
-  ∀ (E : Env) (ρ : Vid → RSig) (cfg cfgB : Cfg) (f : Path → Path) (t : Pkg) (a : Archive),
-    BidSound E → Function.Injective E.H → NoAlias (nodes t) → VidOK ρ (nodes t) → (∀ u ∈ nodes t, u.info.pred = none) →
-    ArchOK E a → cfg.upload = true → cfgB.canDownload = true → cfgB.force = false →
-    ∀ rA, cook E { cfg with dl := {}, canDownload := false } t St.init a = .ok rA →
-    ∃ rB, cook E cfgB (relocate f t) St.init rA.arch = .ok rB ∧
-      ∀ (p : Path) (c : Content), Op.runPackage p c ∈ rB.log →
-        ∃ u ∈ nodes (relocate f t), u.path = p ∧ ∃ d, tryDownload cfgB.dl d u.info = false
-
-/-- **upload, then download without building** (target package; download depth 0): in a workspace at any location
-that is fresh or was only used for downloads, with the archive holding what the uploader's local build put there
-under the target's Build-Id, an invocation that may download the target succeeds, executes no script at all, leaves
-the result of the local build and does not change the archive -/
-theorem upload_then_download_no_build_partial (E : Env) (ρ : Vid → RSig) (hB : BidSound E) (hH : Function.Injective E.H)
+/-- **upload, then download without building - for every download mode and depth.**
+`t0` is the project state the uploader cooked at its location; the downloader has the same recipes, sources and
+fingerprints at another location (`relocate f t0`: same Build-Ids by `bid_location_free`), a workspace that is fresh or
+was only used for downloads, and an archive that holds, for every package, what the uploader's local build put there
+under its Build-Id (`Full`; every uploaded artifact is of this form and honest, see `invariant_preserved`).  Then for
+every configuration that can read the archive the invocation succeeds, and the only package scripts it executes
+belong to packages *above* the download depth (`shallowP`: those for which no download may be tried); everything at
+or below the download depth is downloaded, and what is below a downloaded package is not touched at all.  The target
+holds the result of the uploader's local build and the archive is unchanged. -/
+theorem upload_then_download_no_build (E : Env) (ρ : Vid → RSig) (hB : BidSound E) (hH : Function.Injective E.H)
     (f : Path → Path) (t0 : Pkg) (cfg : Cfg) (s : St) (a : Archive)
-    (hNA : NoAlias (nodes (relocate f t0))) (hV : VidOK ρ (nodes (relocate f t0)))
-    (hnp : ∀ u ∈ nodes (relocate f t0), u.info.pred = none) (hI : Inv E ρ s) (hA : ArchOK E a)
-    (ht : tryDownload cfg.dl 0 (relocate f t0).info = true) (hc : cfg.canDownload = true)
-    (hfull : a (tb E t0) = some (.good (value E t0) (some (E.H (value E t0)))))
-    (hdl : DLOnly (s.loc (relocate f t0).path)) :
-    ∃ r', cook E cfg (relocate f t0) s a = .ok r' ∧ (∀ op ∈ r'.log, ∀ p c, op ≠ .runPackage p c) ∧
+    (hNA : NoAlias (nodes (relocate f t0))) (hV : VidOK ρ (nodes (relocate f t0))) (hAc : Acyc (nodes (relocate f t0)))
+    (hnp : ∀ u ∈ nodes t0, u.info.pred = none) (hI : Inv E ρ s) (hA : ArchOK E a) (hc : cfg.canDownload = true)
+    (hfull : Full E a (nodes t0))
+    (hdl : ∀ u ∈ nodes (relocate f t0), DLOnly (s.loc u.path)) :
+    ∃ r', cook E cfg (relocate f t0) s a = .ok r' ∧
+      (∀ p c, Op.runPackage p c ∈ r'.log → p ∈ shallowP cfg.dl 0 (relocate f t0)) ∧
       r'.st.disk (relocate f t0).path = some (value E t0) ∧ r'.arch = a := by
   have hloc := bid_location_free E f t0
-  generalize relocate f t0 = t at hNA hV hnp ht hdl hloc ⊢
-  have heff : ∀ F, eff F t = t := fun F => eff_id F t (fun u hu => Or.inr (Or.inl (hnp u hu)))
-  cases t with
-  | mk i ds =>
-    -- the first round
-    have hround : ∃ r', cookPkg E cfg 0 (.mk i ds) { st := s, arch := a, mem := Mem.init, log := [] } = .ok r' ∧
-        (∀ op ∈ r'.log, ∀ p c, op ≠ .runPackage p c) ∧ r'.arch = a := by
-      unfold cookPkg
-      have hw : wasAlreadyRun i { st := s, arch := a, mem := Mem.init, log := [] }
-          = (false, { st := s, arch := a, mem := Mem.init, log := [] }) := by
-        simp [wasAlreadyRun, Mem.init]
-      simp only [hw, Bool.false_eq_true, if_false]
-      have hops1 := prepOps_path i (s.loc i.path)
-      generalize hr1 : Run.exec E { st := s, arch := a, mem := Mem.init, log := [] } (prepOps i (s.loc i.path)) = r1
-      have hm1 : r1.mem = Mem.init := by rw [← hr1]; rfl
-      have ha1 : r1.arch = a := by rw [← hr1]; exact exec_arch E _ _ (fun op h => (hops1 op h).2)
-      have hl1 : r1.log = prepOps i (s.loc i.path) := by rw [← hr1]; rfl
-      have hloc1 : r1.st.loc i.path = (prepOps i (s.loc i.path)).foldl (locOp E) (s.loc i.path) := by
-        rw [← hr1]; exact exec_loc_same E _ _ i.path (fun op h => (hops1 op h).1)
-      have hdl1 : DLOnly (r1.st.loc i.path) := by
-        rw [hloc1]
-        unfold prepOps
-        simp only
-        split
-        · left; simp [locOp]
-        · split
-          · left; simp [locOp]
-          · exact hdl
-      obtain ⟨g1, g2, g3, g4, _⟩ := gbp_all E (nodes (.mk i ds)) hNA (.mk i ds) r1.mem (fun u hu => hu)
-        (by rw [hm1]; intro u _ b hb; simp [Mem.init] at hb)
-      generalize hbm : getBuildId E (.mk i ds) r1.mem = bm at g1 g2 g3 g4
-      have hb : bm.1 = tb E t0 := by rw [g1, heff, hloc.1]
-      have htr : bm.2.tried i.path = false := by rw [g4, hm1]; rfl
-      have hd := uploaded_is_downloaded E cfg 0 i bm.1 (r1.st.loc i.path) (value E t0) ht hc hdl1
-      have hfull1 : r1.arch bm.1 = some (.good (value E t0) (some (E.H (value E t0)))) := by rw [ha1, hb]; exact hfull
-      have hops2 := dlOps_path E cfg 0 i bm.1 (r1.st.loc i.path) (r1.arch bm.1)
-      simp only [dlPhase, htr, Bool.false_eq_true, if_false, hfull1, hd.1]
-      refine ⟨_, rfl, ?_, ?_⟩
-      · intro op hop p c
-        simp only [setAlreadyRun, setTried, Run.exec, hl1, List.mem_append] at hop
-        rcases hop with hop | hop
-        · intro e; subst e
-          have := prepOps_plain i (s.loc i.path) _ hop
-          unfold prepOps at hop
-          simp only at hop
-          split at hop
-          · simp at hop
-          · split at hop <;> simp at hop
-        · exact hd.2 op hop p c
-      · show (Run.exec E { r1 with mem := bm.2 } _).arch = a
-        rw [exec_arch E _ _ (fun op h => by rw [hfull1] at hops2; exact (hops2 op h).2)]
-        exact ha1
-    obtain ⟨r', hr', hlog, harch⟩ := hround
-    have hcook : cook E cfg (.mk i ds) s a = .ok r' := by
-      unfold cook
-      simp only [cookRounds, hr']
-    refine ⟨r', hcook, hlog, ?_, harch⟩
-    have := (cook_spec E ρ hB hH cfg (.mk i ds) hNA hV s a hI hA).2.2 r' hcook
-    rw [heff, hloc.2] at this
+  have hnp' : ∀ u ∈ nodes (relocate f t0), u.info.pred = none := by
+    intro u hu
+    rw [nodes_relocate] at hu
+    obtain ⟨v, hv, rfl⟩ := List.mem_map.mp hu
+    have := hnp v hv
+    cases v with
+    | mk i ds => simpa [relocate, Pkg.info] using this
+  have hfull' : Full E a (nodes (relocate f t0)) := by
+    intro u hu
+    rw [nodes_relocate] at hu
+    obtain ⟨v, hv, rfl⟩ := List.mem_map.mp hu
+    rw [(bid_location_free E f v).1]
+    exact hfull v hv
+  generalize relocate f t0 = t at hNA hV hAc hnp' hdl hloc hfull' ⊢
+  have hG0 := G_init E ρ (nodes t) s a hI hA
+  have hA0 : Acc (nodes t) [] { st := s, arch := a, mem := Mem.init, log := [] } := by
+    intro u hu _ _
+    exact ⟨rfl, hdl u hu⟩
+  obtain ⟨r', hr', _, harch, hruns⟩ := nb_all E ρ (nodes t) hB hH hNA hV hAc hnp' cfg hc t 0 _ []
+    (fun u hu => hu) hG0 hA0 (fun _ _ h => by cases h) hfull'
+  have hcook : cook E cfg t s a = .ok r' := by
+    unfold cook
+    simp only [cookRounds, hr']
+  refine ⟨r', hcook, ?_, ?_, harch⟩
+  · intro p c hm
+    rcases hruns p c hm with h | h
+    · cases h
+    · exact h
+  · have := (cook_spec E ρ hB hH cfg t hNA hV s a hI hA).2.2 r' hcook
+    rw [eff_id _ t (fun u hu => Or.inr (Or.inl (hnp' u hu))), hloc.2] at this
     exact this
+
+/-- the download depth 0 (modes `yes`, `forced`, `forced-fallback`): no package script at all is executed -/
+theorem upload_then_download_nothing_built (E : Env) (ρ : Vid → RSig) (hB : BidSound E) (hH : Function.Injective E.H)
+    (f : Path → Path) (t0 : Pkg) (cfg : Cfg) (s : St) (a : Archive)
+    (hNA : NoAlias (nodes (relocate f t0))) (hV : VidOK ρ (nodes (relocate f t0))) (hAc : Acyc (nodes (relocate f t0)))
+    (hnp : ∀ u ∈ nodes t0, u.info.pred = none) (hI : Inv E ρ s) (hA : ArchOK E a) (hc : cfg.canDownload = true)
+    (hfull : Full E a (nodes t0)) (hdl : ∀ u ∈ nodes (relocate f t0), DLOnly (s.loc u.path))
+    (hd : tryDownload cfg.dl 0 (relocate f t0).info = true) :
+    ∃ r', cook E cfg (relocate f t0) s a = .ok r' ∧ (∀ p c, Op.runPackage p c ∉ r'.log) := by
+  obtain ⟨r', h1, h2, _, _⟩ := upload_then_download_no_build E ρ hB hH f t0 cfg s a hNA hV hAc hnp hI hA hc hfull hdl
+  refine ⟨r', h1, ?_⟩
+  intro p c hm
+  have := h2 p c hm
+  cases ht : relocate f t0 with
+  | mk i ds =>
+    rw [ht] at this hd
+    simp [shallowP, Pkg.info] at this hd
+    rw [hd] at this
+    simp at this
+
+/-- the hypotheses about the downloader's side are satisfiable: the example project at another location, a fresh
+workspace, the archive the example environment's local builds fill -/
+example : NoAlias (nodes (relocate (fun p => "/other/" ++ p) exRoot)) ∧
+    Acyc (nodes (relocate (fun p => "/other/" ++ p) exRoot)) ∧
+    Full exE (fun b => if b = tb exE exLib then some (.good (value exE exLib) (some (exE.H (value exE exLib))))
+                       else if b = tb exE exRoot then some (.good (value exE exRoot) (some (exE.H (value exE exRoot)))) else none)
+      (nodes exRoot) ∧
+    (∀ u ∈ nodes (relocate (fun p => "/other/" ++ p) exRoot), DLOnly (St.init.loc u.path)) := by
+  refine ⟨?_, ?_, ?_, ?_⟩
+  · intro u hu v hv h
+    simp only [relocate, relocateL, nodes, nodesL, exRoot, exLib, List.mem_cons, List.mem_append, List.not_mem_nil, or_false] at hu hv
+    rcases hu with rfl | rfl <;> rcases hv with rfl | rfl <;> first | rfl | (simp [Pkg.path, Pkg.info] at h)
+  · intro i ds hm u hu
+    simp only [relocate, relocateL, nodes, nodesL, exRoot, exLib, List.mem_cons, List.mem_append, List.not_mem_nil, or_false] at hm
+    rcases hm with h | h
+    · simp only [Pkg.mk.injEq] at h
+      obtain ⟨rfl, rfl⟩ := h
+      simp only [nodes, nodesL, List.mem_cons, List.mem_append, List.not_mem_nil, or_false] at hu
+      subst hu
+      simp [Pkg.path, Pkg.info]
+    · simp only [Pkg.mk.injEq] at h
+      obtain ⟨rfl, rfl⟩ := h
+      simp [nodesL] at hu
+  · intro u hu
+    simp only [nodes, nodesL, exRoot, exLib, List.mem_cons, List.mem_append, List.not_mem_nil, or_false] at hu
+    rcases hu with rfl | rfl
+    · refine ⟨value exE exRoot, ?_⟩
+      have hne : tb exE exRoot ≠ tb exE exLib := by decide
+      show (if tb exE exRoot = tb exE exLib then _ else if tb exE exRoot = tb exE exRoot then _ else none) = _
+      rw [if_neg hne, if_pos rfl]
+    · refine ⟨value exE exLib, ?_⟩
+      show (if tb exE exLib = tb exE exLib then _ else _) = _
+      rw [if_pos rfl]
+  · intro u _
+    left
+    exact ⟨rfl, rfl⟩
 
 end C07
